@@ -137,6 +137,11 @@ fn view(s: &Snapshot) -> (BTreeMap<Vec<u8>, (String, Option<Vec<u8>>)>, BTreeSet
     (m, by_ino.into_values().collect())
 }
 
+/// A small number derived from the case, used to seed the schedule perturbation.
+fn ops_seed(c: &DCase) -> u64 {
+    (c.tree.entries.len() as u64) * 31 + c.dopts.priority.iter().map(|p| *p as u64).sum::<u64>() + c.move_target as u64
+}
+
 pub fn run_case(c: &DCase, n: u64) -> Verdict {
     let g = build_and_group("c11", c, n, Fs::Tmpfs);
     let target = target_dir(&g.cd, c);
@@ -181,8 +186,16 @@ fn judge(c: &DCase, g: &Grouped, target: &std::path::PathBuf) -> Verdict {
     // dry runs with different pool sizes
     let pristine = Snapshot::take(&[&tree, target]);
     let mut scripts = vec![];
-    for t in ["1", "2", "16"] {
-        let o = mk(&dry_args, t).run();
+    for t in ["1", "2", "16", "jitter"] {
+        let o = if t == "jitter" {
+            // the interposer yields / sleeps at pseudo-randomly chosen libc calls on tree files
+            if !std::path::Path::new(SHIM).exists() {
+                continue;
+            }
+            mk(&dry_args, "8").env("LD_PRELOAD", SHIM).env("FCV_ROOT", &tree).env("FCV_JITTER", (ops_seed(c) + 1).to_string()).run()
+        } else {
+            mk(&dry_args, t).run()
+        };
         if o.timed_out {
             return Verdict::Inconclusive("timeout".into());
         }
@@ -365,7 +378,7 @@ pub fn check(tier: Tier) -> i32 {
     cleanup_process_scratch();
     ctx.finish(
         "exploration",
-        "proptest-generated dedupe scenarios as in C02 (shell-hostile names, hard links, symlinks with -S, roots, priorities, patterns, -n) x remove / link / link --soft / move; one report in five comes from `group --transform 'head -c 3'`, so that the members of a group differ in size. Per case: dry run with RAYON_NUM_THREADS 1, 2, 16 (scripts must be identical modulo the random temp suffix and must not touch the tree); script parsed into (kind, file) operations which must follow report group order and equal, as a set and by kind, the changes of a real run on the same tree (inventory diff); 'Would process N files / reclaim X' must equal 'Processed N files / reclaimed X' and N the number of script operations; for remove/link/link --soft the tree is rebuilt identically and the script is executed by bash: resulting tree (paths, types, bytes, symlink targets, hard-link partition) must equal the real run's. Non-trivial = >=2 operations from >=2 groups and a path needing quoting.",
+        "proptest-generated dedupe scenarios as in C02 (shell-hostile names, hard links, symlinks with -S, roots, priorities, patterns, -n) x remove / link / link --soft / move; one report in five comes from `group --transform 'head -c 3'`, so that the members of a group differ in size. Per case: dry run with RAYON_NUM_THREADS 1, 2, 16 and with 8 threads under schedule perturbation by the interposer (scripts must be identical modulo the random temp suffix and must not touch the tree); script parsed into (kind, file) operations which must follow report group order and equal, as a set and by kind, the changes of a real run on the same tree (inventory diff); 'Would process N files / reclaim X' must equal 'Processed N files / reclaimed X' and N the number of script operations; for remove/link/link --soft the tree is rebuilt identically and the script is executed by bash: resulting tree (paths, types, bytes, symlink targets, hard-link partition) must equal the real run's. Non-trivial = >=2 operations from >=2 groups and a path needing quoting.",
         &["`dedupe` (reflink) is not compared: unsupported on the sandbox file systems, so a real run processes nothing", "access-time priorities are replaced because reading files between the runs changes atimes", "script lines are decoded with fclones' splitter (its agreement with bash is C17's claim); the bash execution is independent of it"],
     )
 }
